@@ -77,14 +77,18 @@ def textVarOK (ci : ClassInfo) (v : XmlVar) : Bool :=
    | _ => false) &&
   fieldAgrees ci v
 
-/-- the classes of the model-typed element vars of `m` have the same metadata under the
-namespace of the element `q` (which the serializer passes down) and under the namespace of
-`m` itself (which the parser passes down) -/
+/-- `XmlMeta` without its own qname: everything both sides use below the root element -/
+def dropQ (m : XmlMeta) : XmlMeta := { m with qname := [] }
+
+/-- the classes of the model-typed element vars of `m` have the same metadata (up to the
+class qname, which only names a root element) under the namespace of the element `q`
+(which the serializer passes down) and under the namespace of `m` itself (which the parser
+passes down) -/
 def nsAgree (Γ : Ctx) (m : XmlMeta) (q : QN) : Bool :=
   m.elementVars.all fun w =>
     match w.clazz with
     | none => true
-    | some c => decide (metaOf Γ c (targetUri q) = metaOf Γ c (targetUri m.qname))
+    | some c => decide ((metaOf Γ c (targetUri q)).map dropQ = (metaOf Γ c (targetUri m.qname)).map dropQ)
 
 def elemVarOK (Γ : Ctx) (m : XmlMeta) (ci : ClassInfo) (v : XmlVar) : Bool :=
   v.isElement && varBase v && decide (1 ≤ v.index) &&
